@@ -11,7 +11,7 @@ import sys
 import time
 
 ROOT = os.path.dirname(os.path.dirname(os.path.abspath(__file__)))
-REPO = "/repo"
+REPO = os.environ.get("VERIF_REPO", "/repo")      # (VERIF_REPO: tools/mutant_iso.py runs a copy of the checks against a scratch worktree)
 SPEC = os.path.join(ROOT, "spec")
 WORK = os.path.join(ROOT, ".work")
 HARNESS = os.path.join(ROOT, "harness")
